@@ -88,6 +88,23 @@ def check_setkey_protocol(ctx):
                "%s can return without the key / owning schema being recorded: the field's reference path, enumeration entry and error "
                "messages no longer name it" % f.qualname)
     ctx.need(n >= 2, "fewer than 2 __setkey__ overrides found")
+    # the base implementation records exactly what it is given: the key under which the field sits in the table is the key
+    # every path (enumeration, reference path, lookup) is built from
+    gb = an.cfg(base_impl)
+    for attr, pi in (("_key", 2), ("_schema", 1)):
+        pname = base_impl.positional_params[pi] if len(base_impl.positional_params) > pi else None
+        sets = [m for m in gb.nodes if m.kind == "assign" and isinstance(m.ast, ast.Assign) and any(
+            isinstance(t, ast.Attribute) and t.attr == attr and isinstance(t.value, ast.Name) and t.value.id == base_impl.self_name for t in m.ast.targets)]
+        ok = bool(sets)
+        for m in sets:
+            srcs = value_sources(base_impl, m.ast.value, m)
+            if not (srcs and all(k == "param" and p_ == pname for k, p_ in srcs)):
+                ok = False
+        ctx.ob("ref-path.setkey-verbatim", base_impl, "self.%s = %s" % (attr, pname), ok,
+               "the field records the %s it is registered with" % ("key" if attr == "_key" else "schema") if ok else
+               "BaseField.__setkey__ does not store the %s it is given as it is (%s): the table key and the field's own key can differ, so "
+               "enumeration, reference paths and lookups disagree" % ("key" if attr == "_key" else "schema",
+                                                                     "; ".join(ast.unparse(m.ast) for m in sets) or "no assignment"))
 
 
 def check(ctx):
